@@ -9,6 +9,7 @@ and the recorded trace is validated by TLC against Sched_Trace.tla.
 """
 import itertools
 import multiprocessing as mp
+import os
 import random
 import shutil
 import tempfile
@@ -84,8 +85,14 @@ def _run_one(job):
     limit = job[2] if len(job) > 2 else None
     slot_limit = job[3] if len(job) > 3 else None
     d = tempfile.mkdtemp(prefix="fv-mem-")
+    # job[4]: name of the spill location below the scratch root (not created in advance: finam creates it), also
+    # names with characters that are special to glob patterns; job[5]: a twin composition sharing the location
+    loc = os.path.join(d, job[4]) if len(job) > 4 and job[4] else d
+    twin = bool(job[5]) if len(job) > 5 else False
     try:
-        tr = sched_run.run(cfg, d, link_order=link_order, memory_limit=limit, slot_limit=slot_limit)
+        tr = sched_run.run(cfg, loc, link_order=link_order, memory_limit=limit, slot_limit=slot_limit, twin=twin)
+        tr["end"]["loc"] = job[4] if len(job) > 4 else ""
+        tr["end"]["twin"] = twin
         if link_order is not None:
             tr["link_order"] = list(link_order)
         return tr
@@ -552,7 +559,10 @@ def replay(pid, path):
         print(rp.get("output", "")[-3000:])
         return 0
     lim = rp.get("limit", -1)
-    t = _run_one((rp["trace"]["cfg"], rp["trace"].get("link_order"), None if lim == -1 else lim))
+    en = rp["trace"].get("end") or {}
+    sl = en.get("slot_limit", -1)
+    t = _run_one((rp["trace"]["cfg"], rp["trace"].get("link_order"), None if lim == -1 else lim,
+                  None if sl == -1 else sl, en.get("loc", ""), en.get("twin", False)))
     acc, tot, bad, _, _ = tlc.validate("Sched_Trace", [t])
     if bad:
         print(f"VIOLATION property={sched_property(bad[0], t['cfg'])} replay={path}  # {bad[0]}")
